@@ -475,6 +475,26 @@ def work_b(task):
                 break
             if e == 'error':
                 break
+        else:
+            # the same stream on a second device that nobody looks at until the end (the view above reads the device after every byte: a
+            # device that computes what it shows lazily must still show the frame as it was presented)
+            dev2 = InMemoryScreen()
+            mem2 = dict(mem)
+            dev2.attach_memory(StubMemory(w, mem2))
+            status2 = 'ok'
+            for b in stream:
+                if isinstance(b, tuple):
+                    for k in range(3):
+                        jw = ((b[1] + k * 2 * w) >> ww_) + 1
+                        mem2[jw] = mem2.get(jw, 0) ^ ((0x4D + 0x11 * k) << off_)
+                    continue
+                status2 = feed_real(dev2, b)
+                if status2 != 'ok':
+                    break
+            if status2 != 'ok' or real_view(dev2) != model.view():
+                sieve.add({'kind': 'screen-vs-decoder-model', 'case': {'w': w, 'commands': [n for n, _ in seq], 'stream': stream, 'at_byte': len(stream), 'observed_only_at_the_end': True},
+                           'expected': {'status': 'ok', 'view': model.view()}, 'observed': {'status': status2, 'view': real_view(dev2) if status2 == 'ok' else None},
+                           'summary': f'w={w} screen stream {[n for n, _ in seq]}: the device looked at only after the whole stream differs from the model'})
         stats['frames'] += len(model.frames)
         states.add((tuple(model.pixels), tuple(model.palette), len(model.frames), model.dead))
         if sample is None and len(model.frames) >= 2:
@@ -749,12 +769,15 @@ def replay(args):
                         m_[jw] = m_.get(jw, 0) ^ ((0x4D + 0x11 * k) << w.bit_length())
                 continue
             e, g = model.feed(b), feed_real(dev, b)
-            if g != e or (e == 'ok' and real_view(dev) != model.view()):
+            if g != e or (e == 'ok' and not c.get('observed_only_at_the_end') and real_view(dev) != model.view()):
                 print('byte', b, 'expected', e, model.view(), 'observed', g, real_view(dev))
                 bad = True
                 break
             if e == 'error':
                 break
+        if c.get('observed_only_at_the_end') and not bad and real_view(dev) != model.view():
+            print('at the end: expected', model.view(), 'observed', real_view(dev))
+            bad = True
     else:
         _, stats, _, res, _ = work_c(('C', c['w']))
         bad = bool(res[0])
